@@ -215,7 +215,6 @@ theorem nameInv_estep {s s' : St} (h : NameInv s) (st : EStep s s') : NameInv s'
   cases st with
   | incReg => exact nameInv_mapFrames _ (fun b => ⟨rfl, rfl, rfl⟩) h
   | emit i _ hd _ hu => exact nameInv_push h i hd hu
-  | branch i _ hd _ hu _ => exact nameInv_push h i hd (by intro v hv; rw [hu] at hv; cases hv)
   | incEmit i _ hd _ hu =>
     have h1 : NameInv s.incReg := nameInv_mapFrames _ (fun b => ⟨rfl, rfl, rfl⟩) h
     apply nameInv_push h1 i hd
